@@ -162,6 +162,9 @@ func (m *Machine) runFrame(fr *frame) {
 			return // normal return
 		}
 		r := recover()
+		if r == nil {
+			return // goroutine of a parked logical thread is being torn down (runtime.Goexit)
+		}
 		if _, ok := r.(goPanic); !ok {
 			panic(r) // path abort or interpreter bug: not visible to the program
 		}
@@ -321,6 +324,9 @@ func (fr *frame) runDefer(d *deferred) {
 	defer func() {
 		if !ok {
 			r := recover()
+			if r == nil {
+				return
+			}
 			if _, isGo := r.(goPanic); !isGo {
 				panic(r)
 			}
